@@ -41,6 +41,9 @@ type RCase struct {
 	Terminate  bool   // TerminateSession while offline
 	CleanStart bool   // reconnect with clean start
 	Takeover   bool   // reconnect while the first connection is still up (OfflineMs ignored)
+	// Sweep: a third period. The second connection stays up until the expiry deadline of the FIRST offline
+	// period has passed, the broker's periodic expiry sweep runs, and the client disconnects and reconnects.
+	Sweep bool `json:",omitempty"`
 }
 
 // effective expiry (seconds) after the first connection ended; -1 = never expires in the test's time scale
@@ -237,6 +240,71 @@ func runResume(c RCase, idx int) (fs []finding, incon string, rerr error) {
 			add("fresh.queued_message_survives:"+kind, "session present = 0 but a message queued for the old session was delivered")
 		}
 	}
+	if !c.Sweep {
+		return fs, "", nil
+	}
+	// ---- third period: the session of a connected client is not subject to any earlier deadline
+	if !c.Takeover && !c.Terminate && E > 0 && E <= 3 {
+		time.Sleep(time.Until(time.Now().Add(tEnd + time.Duration(E)*time.Second + margin - broker.Now())))
+	}
+	server.VerifSessionExpireCheck(b.Srv)
+	if eof, _, _ := c2.EOF(); eof {
+		add("sweep.connection_closed:"+kind, "the expiry sweep closed the connection of an online client")
+		return fs, "", nil
+	}
+	has := false
+	for _, f := range subsOf(b, id) {
+		if f == "r/sentinel/"+id {
+			has = true
+		}
+	}
+	if !has {
+		add("sweep.online_session_destroyed:"+kind, fmt.Sprintf("after the expiry sweep the connected client's subscriptions are %v (first offline period ended %v ago, expiry %d s)", subsOf(b, id), broker.Now()-tEnd, E))
+		return fs, "", nil
+	}
+	b.Publish("r/sentinel/"+id, "after-sweep", 1, false)
+	if err := c2.WaitPayload("after-sweep", step); err != nil {
+		add("sweep.online_delivery_stopped:"+kind, "a connected client no longer receives messages after the expiry sweep: "+err.Error())
+		return fs, "", nil
+	}
+	// expiry of the second connection's session: the CONNECT value again (no DISCONNECT override this time)
+	E2 := RCase{V: c.V, CfgExpiry: c.CfgExpiry, ReqExpiry: c.ReqExpiry}.effExpiry()
+	if c.V != 5 && c.CleanStart {
+		E2 = 0 // the second connection was a v3 clean session: it ends with its connection
+	}
+	from := b.Log.Len()
+	c2.Disconnect(0, nil)
+	if _, ok := b.Log.Wait(from, func(e broker.Event) bool { return e.Kind == "OnClosed" && e.Client == id }, step); !ok {
+		return fs, "OnClosed of the second connection not observed", nil
+	}
+	if E2 != 0 {
+		b.Publish("r/sentinel/"+id, "offline-2", 1, false)
+	}
+	server.VerifSessionExpireCheck(b.Srv) // the new deadline lies in the future
+	c3, err := wire.Dial(id+"c", b.Addr, v)
+	if err != nil {
+		return nil, "", err
+	}
+	defer c3.Close()
+	t3 := broker.Now()
+	ack3, err := c3.Connect(mk(false), step)
+	if err != nil || ack3.Code != 0 {
+		add("reconnect3.failed", fmt.Sprintf("third connect: %v %v", ack3, err))
+		return fs, "", nil
+	}
+	if E2 != 0 && broker.Now()-t3 > time.Duration(E2)*time.Second-margin {
+		return fs, "third connect took too long", nil
+	}
+	want3 := E2 != 0 && !(c.V != 5 && c.ReqExpiry == 0)
+	if ack3.SessionPresent != want3 {
+		add(fmt.Sprintf("sweep.resume_after:got=%v:want=%v:%s", ack3.SessionPresent, want3, kind), fmt.Sprintf("third CONNECT right after the second connection ended: session present %v, want %v (expiry %d s)", ack3.SessionPresent, want3, E2))
+		return fs, "", nil
+	}
+	if want3 {
+		if err := c3.WaitPayload("offline-2", step); err != nil {
+			add("sweep.queued_message_lost:"+kind, "message queued during the second offline period not delivered on resume")
+		}
+	}
 	return fs, "", nil
 }
 
@@ -298,6 +366,7 @@ func resumeCases(rng *rand.Rand, n int) []RCase {
 			}
 		}
 		c.CleanStart = rng.Intn(5) == 0
+		c.Sweep = rng.Intn(2) == 0
 		cs = append(cs, c)
 	}
 	return cs
@@ -547,9 +616,80 @@ func stuckConsumer(r *monitor.Run) {
 	r.Nontrivial("stuck-consumer")
 }
 
+// realSweep lives through the broker's own 20 s expiry ticker (no forced sweep): a session whose first offline
+// period would have expired at about T0+19 s, but which was resumed at T0+17.5 s, is still there at T0+21 s.
+func realSweep(r *monitor.Run) {
+	t0 := time.Now()
+	b, err := broker.Start(broker.Options{})
+	if err != nil {
+		r.Inconclusive(err.Error())
+		return
+	}
+	defer b.Stop(step)
+	e := uint32(2)
+	mk := func() *mqttx.Packet {
+		return &mqttx.Packet{ClientID: "tick", CleanStart: false, Props: &mqttx.Props{SessionExpiry: &e}}
+	}
+	c1, err := wire.Dial("tick", b.Addr, mqttx.V5)
+	if err != nil {
+		r.Inconclusive(err.Error())
+		return
+	}
+	defer c1.Close()
+	if _, err := c1.Connect(mk(), step); err != nil {
+		r.Inconclusive(err.Error())
+		return
+	}
+	if _, err := c1.Subscribe([]mqttx.Sub{{Filter: "tick/#", QoS: 1}}, 0, step); err != nil {
+		r.Inconclusive(err.Error())
+		return
+	}
+	time.Sleep(time.Until(t0.Add(17 * time.Second)))
+	from := b.Log.Len()
+	c1.Disconnect(0, nil)
+	if _, ok := b.Log.Wait(from, func(ev broker.Event) bool { return ev.Kind == "OnClosed" && ev.Client == "tick" }, step); !ok {
+		r.Inconclusive("realSweep: OnClosed not observed")
+		return
+	}
+	time.Sleep(500 * time.Millisecond)
+	c2, err := wire.Dial("tickb", b.Addr, mqttx.V5)
+	if err != nil {
+		r.Inconclusive(err.Error())
+		return
+	}
+	defer c2.Close()
+	ack, err := c2.Connect(mk(), step)
+	r.Eval(1)
+	if err != nil || !ack.SessionPresent {
+		if time.Since(t0) > 18500*time.Millisecond {
+			r.Inconclusive("realSweep: reconnect came too late")
+			return
+		}
+		r.Violation("ticker.resume", fmt.Sprintf("reconnect 0.5 s after disconnect with expiry 2 s: %v %v", ack, err), nil)
+		return
+	}
+	time.Sleep(time.Until(t0.Add(21 * time.Second)))
+	r.Count("real_ticker_periods_lived_through", 1)
+	if subs := subsOf(b, "tick"); len(subs) != 1 {
+		r.Violation("ticker.online_session_destroyed", fmt.Sprintf("after the broker's own expiry sweep the connected client's subscriptions are %v", subs), nil)
+		return
+	}
+	b.Publish("tick/x", "after-tick", 1, false)
+	if err := c2.WaitPayload("after-tick", step); err != nil {
+		r.Violation("ticker.online_delivery_stopped", err.Error(), nil)
+	}
+	r.Nontrivial("real-ticker")
+}
+
 // Run is the entry point.
 func Run(r *monitor.Run) {
 	yield.Enable(r.Seed, true)
+	var tick sync.WaitGroup
+	if !r.Quick() {
+		tick.Add(1)
+		go func() { defer tick.Done(); realSweep(r) }()
+	}
+	defer tick.Wait()
 	// (a)
 	rcs := resumeCases(r.Rand("resume"), r.Pick(64, 700))
 	r.InconBudget = 0.1
